@@ -103,3 +103,29 @@ func ValidPublishTopic(t string) bool {
 	}
 	return true
 }
+
+// Kind classifies how a filter matches (or would have to match) a topic, for reports: exact, plus,
+// hash-child, hash-parent (the '#' matches the parent level itself), with "plus+" prefixed when single-level
+// wildcards are involved as well.
+func Kind(filter, topic string) string {
+	if _, inner, sh := SplitShare(filter); sh {
+		return "shared:" + Kind(inner, topic)
+	}
+	fl := strings.Split(filter, "/")
+	tl := strings.Split(topic, "/")
+	plus := strings.Contains(filter, "+")
+	k := "exact"
+	if fl[len(fl)-1] == "#" {
+		if len(tl) == len(fl)-1 {
+			k = "hash-parent"
+		} else {
+			k = "hash-child"
+		}
+		if plus {
+			k = "plus+" + k
+		}
+	} else if plus {
+		k = "plus"
+	}
+	return k
+}
